@@ -82,10 +82,14 @@ func checkC08(ctx *RunCtx) int {
 func checkC17(ctx *RunCtx) int {
 	rep := NewReport()
 	runSeatChecks(ctx, rep, "C17", []string{"C17"}, ctx.N(100000, 3000000), 0, false)
+	// the button under a goroutine that keeps players sitting out and back in
+	runCases(ctx, rep, 83, ctx.N(600, 12000), func(i int, r *rand.Rand, local *Report) {
+		runNextUnderToggle("C17", local, ctx.Seed, i, r, 150)
+	})
 	return finish(ctx, rep, &CheckSpec{
 		Prop: "C17", Level: "exploration", EvalCounter: "next_calls", NonTrivSet: "nontrivial17",
-		Rule:     "random seat histories on tables of 2-10 seats; on every Next() with the playable set P taken before the call: |P|>=2 and a previous dealer => success and new dealer = first of P clockwise strictly after the previous dealer; fewer than two seated non-reserved players => never success; a failure must be the insufficient-players error; with |P|<2 a success must leave valid positions on >= 2 playable seats; a panic is a violation. Non-trivial = distinct (table size, previous dealer, playable set) with a checked button move",
-		Required: []string{"class_two_or_more_playable_before", "class_insufficient_even_with_waiting", "class_waiting_players_let_in", "button_moves_checked", "scripted_histories"},
+		Rule:     "random seat histories on tables of 2-10 seats; on every Next() with the playable set P taken before the call: |P|>=2 and a previous dealer => success and new dealer = first of P clockwise strictly after the previous dealer; fewer than two seated non-reserved players => never success; a failure must be the insufficient-players error; with |P|<2 a success must leave valid positions on >= 2 playable seats; a panic is a violation. The same two clauses are checked while another goroutine keeps one or two seated players sitting out and back in: with B the playable seats nobody touches, |B|>=2 => success, and the new dealer is the first clockwise of B plus some subset of the toggled seats. Non-trivial = distinct (table size, previous dealer, playable set) with a checked button move",
+		Required: []string{"class_two_or_more_playable_before", "class_insufficient_even_with_waiting", "class_waiting_players_let_in", "button_moves_checked", "scripted_histories", "concurrent_next_checked"},
 	})
 }
 
